@@ -396,10 +396,10 @@ func analysisGen(rng *rand.Rand, lang string) analysisInput {
 // fixed inputs every component sees
 func analysisFixed() []analysisInput {
 	fx := []analysisInput{
-		{"empty", []byte{}}, {"tiny", []byte(" ")}, {"tiny", []byte("a")}, {"raw-bytes", []byte{0xff}}, {"raw-bytes", []byte{0xff, 0xff}},
+		{"empty", []byte{}}, {"tiny", []byte(" ")}, {"tiny", []byte("a")}, {"raw-bytes", []byte{0xff}}, {"raw-bytes", []byte{0xff, 0xff}}, {"raw-bytes", []byte("M\xe3\xa7\xfdN2q\xc9")}, {"invalid-spliced", []byte("ｶ\xe3\x82ﾞ 漢\xe6\xbc ｈ\xef\xbd")},
 		{"invalid-spliced", []byte("a\xffb c\xe2\x82 d")}, {"invalid-spliced", []byte("漢\xff字 ab")}, {"invalid-spliced", []byte("漢\xff")},
 		{"invalid-spliced", []byte("Abc\xc3 Def\xed\xa0\x80Ghi")}, {"truncated-rune", []byte("caf\xc3")}, {"truncated-rune", []byte("\xa9 caf\xc3\xa9")},
-		{"words:special", []byte("Kelvin ȺȾ ΟΔΥΣΣΕΥΣ İstanbul")}, {"words:special", []byte("ab � cd")},
+		{"words:special", []byte("Kelvin ȺȾ ΟΔΥΣΣΕΥΣ İstanbul")}, {"words:special", []byte("ȺȾȺȾ aȺbȾ")}, {"words:special", []byte("ab � cd")},
 		{"apostrophes", []byte("l'avion d’été John's 's ' ’")}, {"words:cjk", []byte("ｶﾞｷﾞ ﾞ ﾊﾟ こんにちは世界 ｈｅｌｌｏ")},
 		{"words:ar", []byte("ﷺ وَالكِتَابُ ـــ")}, {"words:hi", []byte("र्‍ ऍ ॐ क़")}, {"long-token", []byte(strings.Repeat("ab", 130))},
 		{"long-token", []byte(strings.Repeat("漢", 70))},
@@ -585,9 +585,6 @@ func analysisKeyFor(clause, component string, invalidUTF8 bool) string {
 	case "panic":
 		return "analysis-panic:" + component
 	case "offsets":
-		if invalidUTF8 && component == "CamelCase" {
-			return "camelcase-offsets-invalid-utf8"
-		}
 		return "analysis-offsets:" + component
 	}
 	return "analysis-" + clause + ":" + component
@@ -636,75 +633,183 @@ func (e *analysisEngine) analyzers(perAnalyzer int) {
 			inputs = append(inputs, analysisGen(e.rng, ae.name))
 		}
 		for _, in := range inputs {
-			e.w.Count("input:"+strings.SplitN(in.class, ":", 2)[0], 1)
-			a := ae.mk()
-			seen, stages := e.runStages(ae.name, a, in)
-			if stages == nil {
-				continue
-			}
-			// tokenizer clause: pure tokens, offsets within the text the tokenizer saw
+			e.analyzeOne(ae.name, ae.mk, in)
+		}
+	}
+}
+
+// analyzeOne: one analyzer on one input, stage by stage, with all the oracle clauses
+func (e *analysisEngine) analyzeOne(name string, mk func() *analysis.Analyzer, in analysisInput) {
+	e.w.Count("input:"+strings.SplitN(in.class, ":", 2)[0], 1)
+	a := mk()
+	seen, stages := e.runStages(name, a, in)
+	if stages == nil {
+		return
+	}
+	// tokenizer clause: pure tokens, offsets within the text the tokenizer saw
+	e.w.OracleEval(1)
+	good := true
+	for i, t := range stages[0] {
+		if t.Start < 0 || t.Start > t.End || t.End > len(seen) || !bytes.Equal(t.Term, seen[t.Start:t.End]) || t.Incr < 0 {
+			e.w.OracleFail(analysisKeyFor("pure-tokenizer", fmt.Sprintf("%s/%T", name, a.Tokenizer), false),
+				fmt.Sprintf("token %d: term %q is not the input slice [%d,%d) (text of %d bytes), or its increment %d is negative", i, t.Term, t.Start, t.End, len(seen), t.Incr),
+				map[string]interface{}{"analyzer": name, "class": in.class, "input": analysisQ(in.data)})
+			good = false
+			break
+		}
+	}
+	// every stage keeps the offsets within the text the tokenizer saw and the increments >= 0
+	for k := 1; k < len(stages) && good; k++ {
+		e.w.OracleEval(1)
+		if ok, why := analysisTokOK(len(seen), stages[k]); !ok {
+			comp := fmt.Sprintf("%s/filter[%d]%T", name, k-1, a.TokenFilters[k-1])
+			e.w.OracleFail(analysisKeyFor("offsets", comp, false), why, map[string]interface{}{"analyzer": name, "class": in.class, "input": analysisQ(in.data), "tokens": analysisShowTokens(stages[k])})
+			good = false
+		}
+	}
+	// determinism: the whole analyzer, twice, on fresh copies, equals the staged run
+	final := stages[len(stages)-1]
+	for rep := 0; rep < 2; rep++ {
+		var again []analysisTokSnap
+		b := mk()
+		if rep == 1 {
+			b = a // the same instance again
+		}
+		if !e.guarded(name+"/Analyze", in.class, analysisQ(in.data), false, func() { again = analysisSnapTokens(b.Analyze(append([]byte{}, in.data...))) }) {
+			good = false
+			break
+		}
+		e.w.OracleEval(1)
+		if !analysisSnapsEqual(final, again) {
+			e.w.OracleFail(analysisKeyFor("determinism", name, false), "two analyses of the same bytes differ",
+				map[string]interface{}{"analyzer": name, "class": in.class, "input": analysisQ(in.data), "first": analysisShowTokens(final), "second": analysisShowTokens(again)})
+			good = false
+			break
+		}
+	}
+	// stored value unchanged (field.go TermField.Analyze copies before the in-place filters run)
+	{
+		orig := append([]byte{}, in.data...)
+		val := append([]byte{}, in.data...)
+		fld := bluge.NewTextFieldBytes("f", val).WithAnalyzer(mk()).StoreValue().SearchTermPositions()
+		if e.guarded(name+"/TermField.Analyze", in.class, analysisQ(in.data), false, func() { fld.Analyze(0) }) {
 			e.w.OracleEval(1)
-			good := true
-			for i, t := range stages[0] {
-				if t.Start < 0 || t.Start > t.End || t.End > len(seen) || !bytes.Equal(t.Term, seen[t.Start:t.End]) || t.Incr < 0 {
-					e.w.OracleFail(analysisKeyFor("pure-tokenizer", fmt.Sprintf("%s/%T", ae.name, a.Tokenizer), false),
-						fmt.Sprintf("token %d: term %q is not the input slice [%d,%d) (text of %d bytes), or its increment %d is negative", i, t.Term, t.Start, t.End, len(seen), t.Incr),
-						map[string]interface{}{"analyzer": ae.name, "class": in.class, "input": analysisQ(in.data)})
-					good = false
-					break
-				}
+			if !bytes.Equal(fld.Value(), orig) {
+				e.w.OracleFail(analysisKeyFor("stored-value", name, false), "the stored field value changed during analysis",
+					map[string]interface{}{"analyzer": name, "class": in.class, "input": analysisQ(in.data), "after": analysisQ(fld.Value())})
 			}
-			// every stage keeps the offsets within the text the tokenizer saw and the increments >= 0
-			for k := 1; k < len(stages) && good; k++ {
-				e.w.OracleEval(1)
-				if ok, why := analysisTokOK(len(seen), stages[k]); !ok {
-					comp := fmt.Sprintf("%s/filter[%d]%T", ae.name, k-1, a.TokenFilters[k-1])
-					e.w.OracleFail(analysisKeyFor("offsets", comp, false), why, map[string]interface{}{"analyzer": ae.name, "class": in.class, "input": analysisQ(in.data), "tokens": analysisShowTokens(stages[k])})
-					good = false
-				}
+		}
+	}
+	if !good {
+		return // the failing stage is in oracle.jsonl; no Coq case that would only repeat it
+	}
+	st := make([]string, 0, len(stages))
+	for _, s := range stages[1:] {
+		st = append(st, analysisBounds(s))
+	}
+	e.w.Add(fmt.Sprintf("CRun %s %s %s", analysisBytes(seen), analysisCoqStream(stages[0]), cq.List(st)), analysisRunKind(name), len(final) > 0,
+		map[string]interface{}{"analyzer": name, "class": in.class, "input": analysisQ(in.data), "tokens": len(final)})
+}
+
+// chains: random pipelines of bundled components (a tokenizer, two to four token filters, now
+// and then a char filter), run like the bundled analyzers: filters see what other filters emit
+func (e *analysisEngine) chains(n int) {
+	tks := analysisBundledTokenizers()
+	cfs := analysisBundledCharFilters()
+	tfs := analysisBundledTokenFilters()
+	stops := analysisBundledStopFilters()
+	type pick struct {
+		name string
+		mk   func() analysis.TokenFilter
+	}
+	exact := []pick{
+		{"lowercase", func() analysis.TokenFilter { return token.NewLowerCaseFilter() }},
+		{"length(2,8)", func() analysis.TokenFilter { return token.NewLengthFilter(2, 8) }},
+		{"truncate(3)", func() analysis.TokenFilter { return token.NewTruncateTokenFilter(3) }},
+		{"unique", func() analysis.TokenFilter { return token.NewUniqueTermFilter() }},
+		{"ngram(1,2)", func() analysis.TokenFilter { return token.NewNgramFilter(1, 2) }},
+		{"edge(front,1,3)", func() analysis.TokenFilter { return token.NewEdgeNgramFilter(token.FRONT, 1, 3) }},
+		{"edge(back,2,3)", func() analysis.TokenFilter { return token.NewEdgeNgramFilter(token.BACK, 2, 3) }},
+		{"reverse", func() analysis.TokenFilter { return token.NewReverseFilter() }},
+		{"apostrophe", func() analysis.TokenFilter { return token.NewApostropheFilter() }},
+		{"shingle(2,3)", func() analysis.TokenFilter { return token.NewShingleFilter(2, 3, true, " ", "_") }},
+		{"shingle(2,2,no-original)", func() analysis.TokenFilter { return token.NewShingleFilter(2, 2, false, "", "") }},
+		{"fr.elision", func() analysis.TokenFilter { return fr.ElisionFilter() }},
+		{"keyword", func() analysis.TokenFilter {
+			return token.NewKeyWordMarkerFilter(analysisTokenMapOf("the", "fox", "漢字"))
+		}},
+	}
+	// fixed pipelines that replay the repaired offset defects (terms rewritten to more bytes
+	// than their source span, then a filter deriving offsets from the term)
+	type fixedChain struct {
+		name   string
+		mk     func() *analysis.Analyzer
+		inputs []string
+	}
+	fixedChains := []fixedChain{
+		{"whitespace+NFKD+DictCompound", func() *analysis.Analyzer {
+			return &analysis.Analyzer{Tokenizer: tokenizer.NewWhitespaceTokenizer(), TokenFilters: []analysis.TokenFilter{
+				token.NewUnicodeNormalizeFilter(norm.NFKD), token.NewDictionaryCompoundFilter(analysisTokenMapOf(analysisCompoundDict...), 1, 1, 15, false)}}
+		}, []string{"ﷺ", "x ﷺ", "ﬁﬁ abba", "Fußballklub ﷺ"}},
+		{"unicode+lowercase+CamelCase", func() *analysis.Analyzer {
+			return &analysis.Analyzer{Tokenizer: tokenizer.NewUnicodeTokenizer(), TokenFilters: []analysis.TokenFilter{token.NewLowerCaseFilter(), token.NewCamelCaseFilter()}}
+		}, []string{"ȺȾȺȾ aȺbȾ", "ȺȾ", "Ⱥ1Ⱦ"}},
+		{"single+NFKD+CamelCase", func() *analysis.Analyzer {
+			return &analysis.Analyzer{Tokenizer: tokenizer.NewSingleTokenTokenizer(), TokenFilters: []analysis.TokenFilter{token.NewUnicodeNormalizeFilter(norm.NFKD), token.NewCamelCaseFilter()}}
+		}, []string{"ﷺ", "ǅx", "\xff\xff"}},
+		{"regexp-S+Width+Bigram", func() *analysis.Analyzer {
+			return &analysis.Analyzer{Tokenizer: tokenizer.NewRegexpTokenizer(regexp.MustCompile(`\S+`)), TokenFilters: []analysis.TokenFilter{cjk.NewWidthFilter(), cjk.NewBigramFilter(true)}}
+		}, []string{"漢\xff", "漢\xe3\xa7\xfd字", "ｶ\xffﾞ漢"}},
+	}
+	for _, fc := range fixedChains {
+		for _, s := range fc.inputs {
+			e.analyzeOne("chain:"+fc.name, fc.mk, analysisInput{"fixed-chain", []byte(s)})
+		}
+	}
+	for i := 0; i < n; i++ {
+		tk := tks[e.rng.Intn(len(tks))]
+		k := 2 + e.rng.Intn(3)
+		var picks []pick
+		name := tk.name
+		for j := 0; j < k; j++ {
+			switch e.rng.Intn(5) {
+			case 0, 1:
+				p := exact[e.rng.Intn(len(exact))]
+				picks = append(picks, p)
+			case 2:
+				st := stops[e.rng.Intn(len(stops))]
+				picks = append(picks, pick{"stop:" + st.lang, func() analysis.TokenFilter { return st.mk() }})
+			default:
+				f := tfs[e.rng.Intn(len(tfs))]
+				picks = append(picks, pick{f.name, f.mk})
 			}
-			// determinism: the whole analyzer, twice, on fresh copies, equals the staged run
-			final := stages[len(stages)-1]
-			for rep := 0; rep < 2; rep++ {
-				var again []analysisTokSnap
-				b := ae.mk()
-				if rep == 1 {
-					b = a // the same instance again
-				}
-				if !e.guarded(ae.name+"/Analyze", in.class, analysisQ(in.data), false, func() { again = analysisSnapTokens(b.Analyze(append([]byte{}, in.data...))) }) {
-					good = false
-					break
-				}
-				e.w.OracleEval(1)
-				if !analysisSnapsEqual(final, again) {
-					e.w.OracleFail(analysisKeyFor("determinism", ae.name, false), "two analyses of the same bytes differ",
-						map[string]interface{}{"analyzer": ae.name, "class": in.class, "input": analysisQ(in.data), "first": analysisShowTokens(final), "second": analysisShowTokens(again)})
-					good = false
-					break
-				}
+			name += "+" + picks[len(picks)-1].name
+		}
+		var cf *analysisCfEntry
+		if e.rng.Intn(4) == 0 {
+			cf = &cfs[e.rng.Intn(len(cfs))]
+			name = cf.name + "+" + name
+		}
+		mk := func() *analysis.Analyzer {
+			a := &analysis.Analyzer{Tokenizer: tk.mk()}
+			if cf != nil {
+				a.CharFilters = []analysis.CharFilter{cf.mk()}
 			}
-			// stored value unchanged (field.go TermField.Analyze copies before the in-place filters run)
-			{
-				orig := append([]byte{}, in.data...)
-				val := append([]byte{}, in.data...)
-				fld := bluge.NewTextFieldBytes("f", val).WithAnalyzer(ae.mk()).StoreValue().SearchTermPositions()
-				if e.guarded(ae.name+"/TermField.Analyze", in.class, analysisQ(in.data), false, func() { fld.Analyze(0) }) {
-					e.w.OracleEval(1)
-					if !bytes.Equal(fld.Value(), orig) {
-						e.w.OracleFail(analysisKeyFor("stored-value", ae.name, false), "the stored field value changed during analysis",
-							map[string]interface{}{"analyzer": ae.name, "class": in.class, "input": analysisQ(in.data), "after": analysisQ(fld.Value())})
-					}
-				}
+			for _, p := range picks {
+				a.TokenFilters = append(a.TokenFilters, p.mk())
 			}
-			if !good {
-				continue // the failing stage is in oracle.jsonl; no Coq case that would only repeat it
+			return a
+		}
+		for j := 0; j < 3; j++ {
+			in := analysisGen(e.rng, "")
+			if j == 0 {
+				fx := analysisFixed()
+				in = fx[e.rng.Intn(len(fx))]
 			}
-			st := make([]string, 0, len(stages))
-			for _, s := range stages[1:] {
-				st = append(st, analysisBounds(s))
+			if len(in.data) > 80 {
+				in.data = in.data[:80]
 			}
-			e.w.Add(fmt.Sprintf("CRun %s %s %s", analysisBytes(seen), analysisCoqStream(stages[0]), cq.List(st)), "run:"+ae.name, len(final) > 0,
-				map[string]interface{}{"analyzer": ae.name, "class": in.class, "input": analysisQ(in.data), "tokens": len(final)})
+			e.analyzeOne("chain:"+name, mk, in)
 		}
 	}
 }
@@ -911,12 +1016,7 @@ func (e *analysisEngine) oneFilterCall(name string, mk func() analysis.TokenFilt
 	if inOK {
 		if ok, why := analysisTokOK(L, o1); !ok {
 			meta["tokens_out"] = analysisShowTokens(o1)
-			key := analysisKeyFor("offsets", name, invalid)
-			e.w.OracleFail(key, why, meta)
-			if key == "camelcase-offsets-invalid-utf8" {
-				// recorded finding: the case would only repeat it as a correspondence mismatch
-				e.w.Count("known_finding_cases_not_emitted", 1)
-			}
+			e.w.OracleFail(analysisKeyFor("offsets", name, invalid), why, meta)
 			return
 		}
 	}
@@ -1517,11 +1617,12 @@ func runAnalysis(o Opts) error {
 	e.w = cq.New(o.Out, "From Bluge Require Import Base.Res Analysis.Pipeline Analysis.Freq Analysis.AnalysisCorr.", "acase", 200)
 	scale := 1
 	if o.Thorough() {
-		scale = 10
+		scale = 4 // Coq spends ~0.1 s per case elaborating the literals: 4x keeps the thorough tier within its budget
 	}
 	e.witnesses()
 	e.probes()
 	e.analyzers(14 * scale)
+	e.chains(60 * scale)
 	e.tokenizers(10 * scale)
 	e.charFilters(6 * scale)
 	e.otherFilters(10 * scale)
@@ -1531,4 +1632,11 @@ func runAnalysis(o Opts) error {
 	e.matchRoundTrip(10 * scale)
 	e.w.Close()
 	return nil
+}
+
+func analysisRunKind(name string) string {
+	if strings.HasPrefix(name, "chain:") {
+		return "run:chain"
+	}
+	return "run:" + name
 }
